@@ -13,3 +13,22 @@ def _split_mapping_by_keys(mapping, key_lists, result):
     loop(0, types={"mappings": "list[dict[int,list[tuple[int,real]]]]"}, inv=lambda it: len(mappings) == it
          and forall(0, it, lambda c: forall_int(lambda h:
             (h in mappings[c]) == (h in mapping and exists(0, len(key_lists[c]), lambda q: key_lists[c][q] == h)))))
+
+
+@contract("spowtd.fit_offsets:get_series_time_offsets",
+          args={"series_list": "list[tuple[array[real],array[real]]]", "head_step": "real"},
+          returns="tuple[list[int],array[real],dict[int,list[tuple[int,real]]]]")
+def _get_series_time_offsets(series_list, head_step, result):
+    """ASSUMED in this revision (validated by the bounded stand-ins of C05 / C08 / C13): the returned
+    indices are distinct positions of series_list, one offset per index, and every (series, crossing)
+    entry of the returned mapping names a returned index; each level holds at least two entries."""
+    requires(head_step > 0)
+    may_raise(ValueError)
+    may_raise(AssertionError)
+    may_raise(LinAlgError)
+    ensures(len(result[1]) == len(result[0]))
+    ensures(forall(0, len(result[0]), lambda i: 0 <= result[0][i] and result[0][i] < len(series_list)))
+    ensures(forall(0, len(result[0]), lambda j: forall(0, j, lambda i: result[0][i] != result[0][j])))
+    ensures(forall_int(lambda h: implies(h in result[2], len(result[2][h]) >= 2)))
+    ensures(forall_int(lambda h, q: implies(h in result[2] and 0 <= q and q < len(result[2][h]),
+            exists(0, len(result[0]), lambda i: result[0][i] == result[2][h][q][0]))))
